@@ -292,3 +292,36 @@ def edits(r: random.Random, base: str, k: int) -> list[tuple[int, int, str]]:
             i = r.randrange(n)
             out.append((i, i + 1, r.choice(EDIT_ALPHABET)))
     return out
+
+
+# ---------------------------------------------------------------- sources with an error at a known line
+
+FILLERS = ["text", "{{ a }}", "{% assign v = 1 %}", "", "  indented {{ b }}", "{# c #}", "{% if a %}x{% endif %}",
+           "{% liquid\n  assign w = 2\n  echo w\n%}", "{% comment %}\nmulti\n{% endcomment %}", "\u00e9\u00e9 {{ 'q' }}"]
+ERROR_LINES = ["{% endif %}", "{% endfor %}", "{% endcase %}", "{% endunless %}", "{% else %}", "{% when 1 %}", "{% if %}", "{% for %}",
+               "{% assign %}", "{% case %}", "{% nosuchtag %}", "{{ x | nosuch }}", "{{ 1 | divided_by: 0 }}", "{{ a b }}",
+               "{{ ( }}", "{{ 'x }}", "{{ x. }}", "{{ x[ }}", "{% include 'nosuch' %}", "{% render 'nosuch' %}", "{% render nosuch %}",
+               "{{ 1 | plus: , }}", "{% liquid\n echo 1\n endx\n%}", "{% liquid\ncomment\n x\n%}", "{{ 1 | divided_by: 0 }}{{ y }}",
+               "{% extends 'nosuch' %}", "{% cycle %}", "{% echo %}", "{{ \"${ 1 | nosuch }\" }}", "{% for i in (1..3) %}{% endif %}",
+               "{% break %}{{ 1 | modulo: 0 }}", "{{", "{%", "{% if x", "{% comment %}"]
+
+
+def error_line_sources(r: random.Random, tier: str) -> list[str]:
+    """Multi-line sources with one erroneous construct at the start (column 0)
+    or after indentation of every line of 1..5-line templates, with and without
+    a final newline."""
+    out: list[str] = []
+    for err in ERROR_LINES:
+        for k in range(1, 6):
+            for j in range(k):
+                if tier != "thorough" and (k + j + len(err)) % 2 and k > 2:
+                    continue
+                lines = [r.choice(FILLERS) for _ in range(k)]
+                lines[j] = (r.choice(["", "", "  ", "\t", "ab "]) + err)
+                for sep in (["\n"] if tier != "thorough" else ["\n", "\r\n"]):
+                    src = sep.join(lines)
+                    out.append(src)
+                    if r.random() < 0.5:
+                        out.append(src + sep)
+    seen: set[str] = set()
+    return [s for s in out if not (s in seen or seen.add(s))]
